@@ -48,3 +48,11 @@ reg('C15', 'jsonmap', 'rule_json_flow')
 # ---- C17
 reg('C17', 'panics', 'rule_decoder_total', ('dev', 'release'))
 reg('C17', 'panics', 'rule_json_entry', ('dev', 'release'))
+
+# ---- C07
+reg('C07', 'views', 'rule_deleg')
+reg('C07', 'views', 'rule_ioerr')
+# ---- C13
+reg('C13', 'views', 'rule_deleg')
+# ---- C10 (content views forwarded)
+reg('C10', 'views', 'rule_deleg')
